@@ -1,4 +1,5 @@
 import RsModel.Model.Tree
+import RsModel.Props.C01
 /-!
 # C10 — CachedSource is transparent for every call history
 -/
@@ -40,5 +41,18 @@ theorem c10_map_cold (id : Nat) (s : Src) (o : Opts) (σ : Store) (h : σ.get? (
 theorem c10_map_warm (id : Nat) (s : Src) (o : Opts) (σ : Store) (m : Option SMap) (h : σ.get? (id, o) = some m) :
     (Src.cached id s).map o σ = (m, σ) := by
   simp [Src.map, h]
+
+/-- whatever earlier calls have left in the cache (any history, any store `σ`), a stream of the wrapper delivers
+exactly the text of the wrapped source, in both column settings -/
+theorem c10_stream_text (id : Nat) (s : Src) (c : Bool) (σ : Store) (h : (Src.cached id s).WF) :
+    evsText ((Src.cached id s).stream ⟨c, false⟩ σ).1.evs = s.src :=
+  (c01 (.cached id s) c σ h).1
+
+/-- repeating a stream never changes the delivered text: after the first call has filled the cache (store `σ'`),
+the second call delivers the same text -/
+theorem c10_stream_text_repeat (id : Nat) (s : Src) (c : Bool) (σ : Store) (h : (Src.cached id s).WF) :
+    evsText ((Src.cached id s).stream ⟨c, false⟩ ((Src.cached id s).stream ⟨c, false⟩ σ).2).1.evs
+      = evsText ((Src.cached id s).stream ⟨c, false⟩ σ).1.evs := by
+  rw [c10_stream_text id s c _ h, c10_stream_text id s c σ h]
 
 end Rs
